@@ -45,6 +45,12 @@ def run_demo(d, meta, cwd):
     """demo = {"kind": "nickel", "program": ..., "expect_unchanged": <regex on stdout+stderr>}  evaluated with `cargo run`,
        or {"kind": "cmd", "cmd": "..."} run in the worktree (exit 0 = property holds)."""
     demo = meta["demo"]
+    # the authors wrote their demo for <worktree>/MUTANT (or MUTANT2): put a copy of the seeded directory there
+    import shutil
+    od = os.path.join(cwd, meta.get("orig_dir", "MUTANT"))
+    if os.path.isdir(od):
+        shutil.rmtree(od)
+    shutil.copytree(d, od, ignore=shutil.ignore_patterns("verified.json*", "detected.json"))
     if demo["kind"] == "cmd":
         rc, out = sh(demo["cmd"], cwd=cwd, env={"CARGO_TARGET_DIR": TGT, "SEED_DIR": os.path.abspath(d)})
         return rc == 0, out[-3000:]
@@ -68,7 +74,7 @@ def verify(d):
         res["demo_fails_with_change"] = not ok1
         res["demo_output_with_change"] = out1[-1500:]
         t = time.time()
-        rc, out = sh("cargo nextest run --workspace --no-fail-fast --test-threads 8 --offline 2>&1 | tail -40", cwd=WT,
+        rc, out = sh("cargo nextest run --workspace --no-fail-fast --test-threads 8 --retries 2 --offline 2>&1 | tail -40", cwd=WT,
                      env={"CARGO_TARGET_DIR": TGT}, timeout=10800)
         res["test_suite_s"] = round(time.time() - t)
         res["test_suite_tail"] = out[-2500:]
